@@ -506,6 +506,58 @@ def familyOfGetter (getter : String) : Family :=
   else if getter == "getCurrentNewArrayAllocator" then .newArray
   else .new
 
+/-- An acquiring function of MemoryLeakWarningPlugin.cpp (`mem_leak_operator_new…`, `mem_leak_malloc`, their thread-safe
+    variants) executed as the REGENERATED description says: `allocMemory` with the function's current allocator, its
+    location arguments and its layout flag. -/
+def acquireBy (w : Gen.LeakDetector.AcquireWrapper) (c : Current) (s : State) (size : Nat) (file : String) (line : Nat)
+    (result : Nat) (nodeOk : Bool) (fill : UInt8) : State × List Ev :=
+  alloc s (c.byGetter w.getter) size (if w.withLocation then file else "<unknown>") (if w.withLocation then line else 0)
+    w.separateNode result nodeOk fill
+
+/-- the forms of the global overloads (names used by the harness) and the C++ signature each stands for;
+    `malloc` / `free` are `cpputest_malloc_location` / `cpputest_free_location` -/
+def formKey : String → Option String
+  | "new" => some "new(size_t)"
+  | "new_fi" => some "new(size_t,const char*,int)"
+  | "new_fs" => some "new(size_t,const char*,size_t)"
+  | "new_nt" => some "new(size_t,const std::nothrow_t&)"
+  | "newa" => some "new[](size_t)"
+  | "newa_fi" => some "new[](size_t,const char*,int)"
+  | "newa_fs" => some "new[](size_t,const char*,size_t)"
+  | "newa_nt" => some "new[](size_t,const std::nothrow_t&)"
+  | "del" => some "delete(void*)"
+  | "del_fi" => some "delete(void*,const char*,int)"
+  | "del_fs" => some "delete(void*,const char*,size_t)"
+  | "del_sz" => some "delete(void*,size_t)"
+  | "del_nt" => some "delete(void*,const std::nothrow_t&)"
+  | "dela" => some "delete[](void*)"
+  | "dela_fi" => some "delete[](void*,const char*,int)"
+  | "dela_fs" => some "delete[](void*,const char*,size_t)"
+  | "dela_sz" => some "delete[](void*,size_t)"
+  | "dela_nt" => some "delete[](void*,const std::nothrow_t&)"
+  | "malloc" => some "malloc"
+  | "free" => some "free"
+  | _ => none
+
+/-- the function pointer an overload form goes through (regenerated forwarding of every operator) -/
+def formFptr (form : String) : Option String :=
+  match formKey form with
+  | some "malloc" => some "malloc_fptr"
+  | some "free" => some "free_fptr"
+  | some k => (Gen.LeakDetector.overloads.find? (fun o => o.key == k)).map (·.fptr)
+  | none => none
+
+/-- the function behind it when the plain / the thread-safe overloads are switched on (regenerated tables) -/
+def formFunction (threadSafe : Bool) (form : String) : Option String :=
+  (formFptr form).bind (fun p =>
+    (if threadSafe then Gen.LeakDetector.threadSafeTable else Gen.LeakDetector.plainTable).lookup p)
+
+def acquireWrapperOf (threadSafe : Bool) (form : String) : Option Gen.LeakDetector.AcquireWrapper :=
+  (formFunction threadSafe form).bind (fun n => Gen.LeakDetector.acquireWrappers.find? (fun w => w.name == n))
+
+def releaseWrapperOf (threadSafe : Bool) (form : String) : Option Gen.LeakDetector.ReleaseWrapper :=
+  (formFunction threadSafe form).bind (fun n => Gen.LeakDetector.releaseWrappers.find? (fun w => w.name == n))
+
 /-- `operator new` / `operator new[]` / `cpputest_malloc_location` -/
 def acquire (c : Current) (f : Family) (s : State) (size : Nat) (file : String) (line : Nat)
     (result : Nat) (nodeOk : Bool) (fill : UInt8) : State × List Ev :=
